@@ -84,6 +84,17 @@ def prep_strkeys(t):
     return [list(t[0])] + [[str(r[0])] + list(r[1:]) for r in t[1:]]
 
 
+class LazyRows(object):
+    """A table made of a header and a lazily produced sequence of rows (for accessors that return row iterables)."""
+    def __init__(self, header, rows):
+        self.header, self.rows = header, rows
+
+    def __iter__(self):
+        yield tuple(self.header)
+        for r in self.rows():
+            yield tuple(r)
+
+
 def entries():
     etl = _etl()
     z = _zoo()
@@ -241,7 +252,7 @@ def entries():
                                                         reducers={'a': list}), 'sorted', prep=prep_melted)
     add('transpose', 1, lambda s: etl.transpose(s[0]), 'sorted')
     add('pivot', 1, lambda s: etl.pivot(s[0], 'k', 'a', 'v', sum), 'sorted', prep=prep_strkeys)
-    add('flatten', 1, lambda s: etl.wrap([['value']] + [[x] for x in etl.flatten(s[0])]), S + ' expand')
+    add('flatten', 1, lambda s: LazyRows(['value'], lambda: ([x] for x in etl.flatten(s[0]))), S + ' expand')
     add('unflatten', 1, lambda s: etl.unflatten(etl.values(s[0], 'v'), 2), S + ' drop noh')
     # ---- maps
     add('fieldmap', 1, lambda s: etl.fieldmap(s[0], {'kk': 'k', 'vv': ('v', lambda v: v * 2), 'r': _vplus}), S)
@@ -262,7 +273,7 @@ def entries():
     add('cache:n', 1, lambda s: etl.wrap(s[0]).cache(2), S)
     add('progress', 1, lambda s: etl.progress(s[0], 2, out=_DEVNULL), S)
     add('clock', 1, lambda s: etl.clock(s[0]), S)
-    add('data', 1, lambda s: etl.wrap([['k', 'a', 'v']] + [list(r) for r in etl.data(s[0])]), S)
+    add('data', 1, lambda s: LazyRows(['k', 'a', 'v'], lambda: (list(r) for r in etl.data(s[0]))), S)
     add('valuecounts', 1, lambda s: etl.valuecounts(s[0], 'k'), 'sorted')
     add('typecounts', 1, lambda s: etl.typecounts(s[0], 'k'), 'sorted')
     add('parsecounts', 1, lambda s: etl.parsecounts(s[0], 'a'), 'sorted')
